@@ -12,7 +12,19 @@ def check_case(rep, case, name):
         f0, f1, f2 = exact(t)
     except Exception as e:
         rep.dev(name, case, 'exception %r' % (e,), 'a potential'); return
+    regular_at_0 = t[0] == 'leaf' and t[1] in ('polynomial', 'constant', 'zero', 'morse', 'exp_spline', 'bornmayer')
     for x in case['rs']:
+        if x == 0.0 and regular_at_0:
+            # forms that are regular at the origin: value and offered derivatives exist there
+            try:
+                vals = (f(x), f.deriv(x) if hasattr(f, 'deriv') else None, f.deriv2(x) if hasattr(f, 'deriv2') else None)
+            except Exception as e:
+                rep.dev(name, dict(case, rs=[x]), 'exception %r at r=0' % (e,), 'value %r, derivative %r' % (float(sp.limit(to_sympy(t), r, 0, '+')), float(sp.limit(sp.diff(to_sympy(t), r), r, 0, '+')))); return
+            want = (float(sp.limit(to_sympy(t), r, 0, '+')), float(sp.limit(sp.diff(to_sympy(t), r), r, 0, '+')), float(sp.limit(sp.diff(to_sympy(t), r, 2), r, 0, '+')))
+            for g, w, lbl in zip(vals, want, ('energy', 'deriv', 'deriv2')):
+                if g is not None and not relclose(g, w, 1e-8): rep.dev(name, dict(case, rs=[x]), '%s(0)=%r' % (lbl, g), w); return
+            rep.ok(3); continue
+        if x == 0.0: continue
         try:
             u, e0 = f(x), float(f0(x))
         except Exception as e: continue
@@ -39,7 +51,7 @@ if __name__ == '__main__':
     else:
         rng = random.Random(pl.get('seed', 0))
         for name in sorted(LEAVES):      # every built-in form once
-            c = dict(route='api', tree=('leaf', name, [rnd(p) for p in LEAVES[name][0](rng)]), rs=[0.7, 1.3, 2.9, 5.5]); rep.case('leaf', c); check_case(rep, c, 'leaf-' + name)
+            c = dict(route='api', tree=('leaf', name, [rnd(p) for p in LEAVES[name][0](rng)]), rs=[0.0, 0.7, 1.3, 2.9, 5.5]); rep.case('leaf', c); check_case(rep, c, 'leaf-' + name)
         for i in range(pl.get('n', 30)):
             c = gen_case(rng); rep.case(c['route'], c); check_case(rep, c, 'seeded-%d' % i)
     rep.finish()
